@@ -395,6 +395,30 @@ def native_matching_weights(cname, size, rnd):
     return None
 
 
+def native_uf_low_weight(size, rnd, n_triples, sector):
+    """union-find (cluster growth, merging, peeling - uf_support.py is not analysed deductively): every error of weight <= 2 in one sector and `n_triples`
+    sampled errors of weight 3 on a small torus, where clusters that stopped growing are absorbed by later ones; the correction must reproduce the syndrome"""
+    code = BC.make('Toric2DCode', size)
+    dec, em = BD.build('UnionFindDecoder', code)
+    n = code.n
+    off = 0 if sector == 'X' else n
+    supports = [()] + [(a,) for a in range(n)] + list(itertools.combinations(range(n), 2))
+    triples = list(itertools.combinations(range(n), 3))
+    supports += triples if n_triples is None or n_triples >= len(triples) else rnd.sample(triples, n_triples)
+    for sup in supports:
+        e = np.zeros(2 * n, dtype=np.uint8)
+        for q in sup:
+            e[off + q] = 1
+        s = np.asarray(code.measure_syndrome(e)).astype(np.uint8) % 2
+        try:
+            c = np.asarray(BD.quiet_decode(dec, s.copy()))
+        except Exception as e_:      # noqa
+            return 'decode raises %s: %s (error: %s on qubits %s)' % (type(e_).__name__, str(e_)[:120], sector, list(sup)), s.tolist(), len(supports)
+        if c.shape != (2 * n,) or not np.array_equal(np.asarray(code.measure_syndrome(c)) % 2, s):
+            return 'correction does not reproduce the syndrome of the %s error on qubits %s' % (sector, list(sup)), s.tolist(), len(supports)
+    return None, None, len(supports)
+
+
 KNOWN_WITNESSES = [('UnionFindDecoder', 'Toric2DCode', (2, 2), None, {}), ('UnionFindDecoder', 'Toric2DCode', (2, 4), None, {}),
                    ('RotatedSweepMatchDecoder', 'RotatedToric3DCode', (3, 2, 2), None, {})]
 
@@ -462,6 +486,10 @@ def bounded(tier, seed):
     why, syn = native_valid('MatchingDecoder', 'Toric2DCode', (3, 3), None, {}, rnd, 2, direction=(1 / 3, 1 / 3, 1 / 3), p=0.9); ev += 1
     if why:
         viol.append(dict(obligation='C05.bounded.prior[MatchingDecoder]', input=dict(decoder='MatchingDecoder', code='Toric2DCode', size=[3, 3], deformation=None, direction=[1 / 3, 1 / 3, 1 / 3], error_rate=0.9, syndrome=syn), detail=why))
+    for size, sector in (((4, 4), 'X'), ((4, 4), 'Z'), ((3, 5), 'X')):
+        why, syn, cnt = native_uf_low_weight(size, rnd, 300 if tier == 'quick' else None, sector); ev += 1; nt.add(('uf-low-weight', size, sector))
+        if why:
+            viol.append(dict(obligation='C05.bounded.lowweight[UnionFindDecoder]', input=dict(decoder='UnionFindDecoder', code='Toric2DCode', size=list(size), deformation=None, syndrome=syn), detail=why))
     for cname, size in (('Toric2DCode', (3, 3)), ('Planar2DCode', (3, 2)), ('RotatedPlanar2DCode', (3, 3))):
         why = native_matching_weights(cname, size, rnd); ev += 1
         if why:
@@ -472,6 +500,6 @@ def bounded(tier, seed):
         key = (v['obligation'], known_match(PROPERTY, v['obligation'], v['input']) is not None)
         if key not in seen:
             seen.add(key); out.append(v)
-    return dict(bound='complete decoders also under boundary priors (pure X / Y / Z noise, rate 0 and 1); every decoder x its allowed codes at 2-9 (code,size,deformation) cases x syndromes of random Pauli errors at 3 rates + zero syndrome; PyMatching edge weights read back',
+    return dict(bound='complete decoders also under boundary priors (pure X / Y / Z noise, rate 0 and 1); every decoder x its allowed codes at 2-9 (code,size,deformation) cases x syndromes of random Pauli errors at 3 rates + zero syndrome; union-find: all one-sector errors of weight <= 2 and 300 (quick) / all (thorough) of weight 3 on Toric2D 4x4 (X, Z) and 3x5 (X); every decode call under a time limit (a call that does not return is a violation); PyMatching edge weights read back',
                 evaluations=ev, distinct_nontrivial=len(nt), rule='construct, decode, check shape/binary/no raise; complete decoders: syndrome reproduced and trivial->trivial',
                 samples=samples, violations=out)
